@@ -4,7 +4,7 @@ from common import *
 import cap as capmod, engine
 
 HDR = '''From Coq Require Import List NArith String.
-From LogosV Require Import Engine.Model Engine.Cert Engine.Build Properties.All.
+From LogosV Require Import Engine.Model Engine.Cert Engine.Build Engine.GraphBuild Engine.ByteClass Engine.Prog Properties.All.
 Import ListNotations.
 Open Scope N_scope.
 '''
@@ -26,7 +26,23 @@ def instance_text(c, idx, theorems):
                      ('exact_ok', 'exact_ok d_%s g_%s V_%s R_%s D_%s' % (n, n, n, n, n)),
                      ('wf_graph', 'wf_graph g_%s' % n)):
         t.append('Lemma %s_%s : %s = true. Proof. vm_compute. reflexivity. Qed.' % (nm, n, expr))
+    if any('build_side_@' in th for th in theorems):
+        # the certificate-free route: the modelled construction against the captured graph (relation = pairing read backwards)
+        V = capmod.compute_pairing(c, dfa)
+        back = {}
+        for s_, qs_ in V.items():
+            for q_ in qs_:
+                back.setdefault(q_, []).append(s_)
+        t.append('Definition Vs_%s := mk_pairing %s.' % (n, capmod.coq_list('(%d, %s)' % (q_, capmod.coq_list(str(x) for x in ss)) for q_, ss in sorted(back.items()))))
+        t.append('Lemma build_side_%s : build_side d_%s = true. Proof. vm_compute. reflexivity. Qed.' % (n, n))
+        t.append('Lemma gsimb_%s : gsim_ok (build d_%s) g_%s Vs_%s = true. Proof. vm_compute. reflexivity. Qed.' % (n, n, n, n))
+    if any('prog_ok_@' in th for th in theorems) and getattr(c, 'prog_ir', None) is not None:
+        import genparse
+        t.append('Definition p_%s := %s.' % (n, genparse.coq_prog(c.prog_ir)))
+        t.append('Lemma prog_ok_%s : prog_ok g_%s p_%s = true. Proof. vm_compute. reflexivity. Qed.' % (n, n, n))
     for th in theorems:
+        if 'prog_ok_@' in th and getattr(c, 'prog_ir', None) is None:
+            continue
         t.append(th.replace('@', n))
     return '\n'.join(t) + '\n', st
 
@@ -36,6 +52,8 @@ TH_C01 = 'Definition C01_@ := C01_maximal_munch d_@ g_@ V_@ D_@ dfa_ok_@ sim_ok_
 TH_C01S = 'Definition C01s_@ := C01_stream_eq_spec d_@ g_@ V_@ R_@ D_@ dfa_ok_@ sim_ok_@ exact_ok_@.'
 TH_C02 = 'Definition C02_@ := C02_error_span d_@ g_@ V_@ R_@ D_@ dfa_ok_@ sim_ok_@ exact_ok_@.'
 TH_C03 = 'Definition C03_@ := C03_tiling d_@ g_@ V_@ R_@ D_@ dfa_ok_@ sim_ok_@ exact_ok_@.'
+TH_C01B = 'Definition C01b_@ := C01_maximal_munch_built d_@ g_@ Vs_@ build_side_@ gsimb_@.'
+TH_C06P = 'Definition C06p_@ := fun U isprefix start rest => C06_emitted_is_ref U g_@ p_@ isprefix start rest prog_ok_@ wf_graph_@.'
 
 
 def _kernel_shard(args):
